@@ -181,6 +181,9 @@ func (m *Machine) ActShutdown(t *rapid.T) {
 	returned := false
 	var ret error
 	finishes := 0
+	gated, gatedOnce := false, false
+	releaseGate := func() {}
+	defer func() { releaseGate() }()
 	poll := func() {
 		select {
 		case ret = <-done:
@@ -207,11 +210,24 @@ func (m *Machine) ActShutdown(t *rapid.T) {
 		if forced && !ctxCanceled && finishes >= k {
 			choices = append(choices, "force", "force")
 		}
-		choices = append(choices, "schedule", "save")
+		if !gated {
+			choices = append(choices, "save")
+		}
+		choices = append(choices, "schedule")
+		if m.mem.Gate == nil && !gatedOnce {
+			choices = append(choices, "slowSave")
+		}
+		for _, j := range m.order() {
+			if js := m.snap.Jobs[j.ID]; js != nil && js.Running() {
+				choices = append(choices, "cancel")
+				break
+			}
+		}
 		if len(open) == 0 && len(held) == 0 && forced && !ctxCanceled {
 			force() // nothing executes any more: let the deadline pass now
 		}
 		if len(open) == 0 && len(held) == 0 {
+			releaseGate()
 			// nothing left that the harness must do: the shutdown has to return by itself
 			select {
 			case ret = <-done:
@@ -278,6 +294,29 @@ func (m *Machine) ActShutdown(t *rapid.T) {
 		case "save":
 			m.stimulus("  save during shutdown")
 			m.w.PR.SaveToStore()
+		case "cancel":
+			// a cancel is served as usual while a shutdown is in progress
+			m.w.Stats.hit("shutdown:cancel-during")
+			m.ActCancel(t)
+		case "slowSave":
+			// a save whose store write is slow: it has taken its snapshot and is still writing when the
+			// shutdown reaches its final save - the final state must nevertheless be what the store ends up with
+			m.stimulus("  slow save (blocked in the store until the end)")
+			gate := make(chan struct{})
+			m.mem.SetGate(gate)
+			go m.w.PR.SaveToStore()
+			limit := time.Now().Add(SoftLimit)
+			for !m.mem.GateReached() && time.Now().Before(limit) {
+				time.Sleep(time.Microsecond)
+			}
+			gated, gatedOnce = true, true
+			releaseGate = func() {
+				if gated {
+					gated = false
+					close(gate)
+				}
+			}
+			m.w.Stats.hit("shutdown:slow-save-overlapping")
 		}
 	}
 	if !returned {
